@@ -259,10 +259,18 @@ pub fn run(c: &C13Case) -> Outcome {
 		if injected > 0 {
 			world.0.lock().unwrap().fail_next.clear();
 			world.0.lock().unwrap().during.clear();
-			config.throttle(Duration::from_millis(52));
+			// the retry is triggered either by an unrelated change or by setting the very same path set again
+			// (the natural way to ask for a retry, e.g. from an error handler after fixing the cause)
+			let reassert = c.steps.len() % 2 == 0 && !m.paths.is_empty();
+			if reassert {
+				let list: Vec<WatchedPath> = m.paths.iter().map(|(p, r)| if *r { WatchedPath::recursive(p.clone()) } else { WatchedPath::non_recursive(p.clone()) }).collect();
+				config.pathset(list);
+			} else {
+				config.throttle(Duration::from_millis(52));
+			}
 			settle().await;
 			settle().await;
-			check(true, "after a later unrelated change retried the failed paths")?;
+			check(true, if reassert { "after the same path set was set again to retry the failed paths" } else { "after a later unrelated change retried the failed paths" })?;
 		}
 		task.abort();
 		Ok(())
